@@ -208,8 +208,9 @@ theorem floatFMA_eq_std (s : St) (e : Eng) (a x y : Dense)
   have hoxy : sameOrd x y = true := by
     unfold sameOrd at *; simp_all
   have hty : totalSize y.shape = totalSize a.shape := shapeEq_totalSize _ _ hshy
+  have hnr : incrRefused a.win x.win y.win = false := by simp [incrRefused, isSc, hna, hnx]
   unfold engFloatFMA engArithVV handleFuncOpts eOpIncr isSc
-  simp [hia, hix, hiy, hdt, hdx, hdy, hsh, hshy, hord, hordy, hoxy, hnum, hk, hleny, hna, hnx, hv, hty]
+  simp [hia, hix, hiy, hdt, hdx, hdy, hsh, hshy, hord, hordy, hoxy, hnum, hk, hleny, hna, hnx, hv, hty, hnr]
 
 /-! ## non-vacuity -/
 
